@@ -16,6 +16,7 @@ LEVEL_TEXT["C12"] = (
     "Measured only (oracle, long double): convergence below 1e-6 on white input for NLMS and RLS, sample-by-sample agreement with the "
     "extended-precision reference recursion (relative, absolute floor 1e-280 next to the underflow threshold), bit-identity of a long single call with the "
     "same stream in small frames, copies of filter objects, call-to-call monotonicity of the NLMS misalignment, real RLS = exponentially weighted, diagonally regularised least squares (batch normal equations)."
+    " REGENERATED TIE (Props/C12Gen): the LmsFilter / RlsFilter constructors and the sample-loop bodies of their process (LMS, NLMS, RLS; real and complex; all tap loops) are translated from the C++ on every run and proved equal to the model steps (lms*Ctor_eq, rls*Ctor_eq, lms*Step_eq, rls*Step_eq, *_run_eq); e = d - y, the locked clause and T12.4 are restated for the generated code (lms*_gen_from_ctor_error_exact, rls_gen_from_ctor_is_wls). "
 )
 
 PROPS["C12"] = {
